@@ -159,6 +159,7 @@ for _k in ("bisect", "bisect_left", "bisect_right"):
     _STD_PURE["bisect." + _k] = getattr(_bisect, _k)
     _STD_PURE[_k] = getattr(_bisect, _k)      # `from bisect import bisect_right`
 _STD_PURE["str.maketrans"] = str.maketrans
+_STD_PURE["dict.fromkeys"] = dict.fromkeys
 _TYPES = {"bool": bool, "int": int, "float": float, "str": str, "list": list, "tuple": tuple,
           "dict": dict, "set": set, "slice": slice}
 _STR_METHODS = {
@@ -316,6 +317,9 @@ class Evaluator:
         if getattr(type(base), "_fold_ok", False) and not n.attr.startswith("__") and n.attr in vars(type(base)) \
                 and not callable(vars(type(base))[n.attr]):
             return vars(type(base))[n.attr]  # class-level data attribute of a sample-domain class
+        if isinstance(base, type) and getattr(base, "_fold_ok", False) and not n.attr.startswith("__") and n.attr in vars(base) \
+                and not callable(vars(base)[n.attr]):
+            return vars(base)[n.attr]        # ... read through the class itself (Solver.OPTIMAL)
         raise Unfoldable(f"attribute read {ast.unparse(n)}")
 
     def _Slice(self, n):
